@@ -72,6 +72,24 @@ def case_st(draw, tie=False):
         fmax = draw(st.sampled_from([0.55, 0.75, 1.0, 4.0]))
         el = st.one_of(st.integers(-64, 64).map(lambda k: k / 64.0 * fmax), fl(-fmax, fmax))
         f = draw(hnp.arrays(np.float64, (n, d), elements=el, fill=st.nothing()))
+        # whole-batch classes (EXTENSION_3 class 4): a short-cut that inspects the batch as a whole (largest Cartesian
+        # component below half the smallest perpendicular width -> "nothing to fold") is switched off by one long
+        # member, so batches whose members ALL sit in the critical region are constructed, not hoped for: every vector
+        # short in every Cartesian component but aimed at the oblique corner of a tilted cell, where a fractional
+        # coordinate exceeds 1/2 (H=[[10,0],[5,10]], r=(4,-4): s_x=0.6).
+        batch = draw(st.sampled_from(["mixed", "mixed", "corner-short", "corner-short", "all-inside"]))
+        if batch == "corner-short" and ck != "ortho":
+            Hinv = np.linalg.inv(cell["H"])
+            w = 0.5 / np.sqrt((Hinv * Hinv).sum(axis=0)).max()      # half the smallest perpendicular width
+            rows = []
+            for _ in range(n):
+                k = draw(st.integers(0, d - 1))
+                sg = np.where(Hinv[:, k] >= 0, 1.0, -1.0) * draw(st.sampled_from([1.0, -1.0]))
+                u = np.array([draw(st.sampled_from([0.999, 0.97, 0.9, 0.8])) for _ in range(d)])
+                rows.append((w * sg * u) @ Hinv)
+            f = np.array(rows)
+        elif batch == "all-inside":
+            f = f / (2.0 * fmax) * 0.98          # every |f| < 1/2: nothing to fold, the input must come back
     ppp = np.array(draw(st.sampled_from(list(itertools.product([0, 1], repeat=d)))), dtype=int)
     if draw(st.integers(0, 3)) > 0:
         ppp = np.ones(d, dtype=int) if draw(st.booleans()) else ppp
@@ -86,7 +104,8 @@ def case_st(draw, tie=False):
             cell = dict(cell, H=Hi)
         else:
             rep = "float"
-    return {"d": d, "cell": cell, "f": f, "ppp": ppp, "shift": shift, "single": single, "tie": tie, "rep": rep}
+    return {"d": d, "cell": cell, "f": f, "ppp": ppp, "shift": shift, "single": single, "tie": tie, "rep": rep,
+            "batch": "ties" if tie else batch}
 
 
 def check(case):
@@ -180,7 +199,11 @@ def check(case):
             "all-|f|<=0.55" if np.abs(f).max() <= 0.55 else ("all-|f|<=1" if np.abs(f).max() <= 1 else "far-images"),
             "inside-cartesian-half-box" if np.all(np.abs(R) <= 0.5 * np.abs(np.diag(H))) else "outside-cartesian-half-box",
             "tie" if tie.any() else "no-tie", "single" if case["single"] else "batch",
-            f"maxshift{int(min(np.abs(nshift).max(), 4))}"]
+            f"maxshift{int(min(np.abs(nshift).max(), 4))}", "batch-" + case.get("batch", "mixed")]
+    Hinv_ = np.linalg.inv(H)
+    wmin = 0.5 / np.sqrt((Hinv_ * Hinv_).sum(axis=0)).max()
+    if np.abs(R).max() < wmin and np.any(np.abs(fi[:, ppp == 1]) > 0.5 + 1e-6):
+        tags.append("whole-batch-short-but-beyond-half-cell")   # every member short, some member needs folding
     return {"nontrivial": nontrivial, "tags": tags}
 
 
